@@ -122,7 +122,7 @@ static DensityLegalizer::Parameters legParams(int variant) {
 
 struct Op { int kind, arg; };
 static const char *opNames[] = {"refineX", "refineY", "coarsenX", "coarsenY", "refine", "improve", "run", "improveXTransport", "improveYTransport",
-                                "improveSquare", "improveDiagonals", "improveXY", "updateTargets"};
+                                "improveSquare", "improveDiagonals", "improveXY", "updateTargets", "updateCellDemand"};
 
 static float gTargetScale = 1.0f;
 static std::vector<std::vector<float>> targetMenuX1(int n);
@@ -150,8 +150,24 @@ static bool enabled(const DensityLegalizer &l, const Op &op) {
   }
 }
 
+static const Circuit *gCircuit = nullptr;  // the circuit of the instance being explored (for updateCellDemand)
 static void apply(DensityLegalizer &l, const Op &op) {
   switch (op.kind) {
+    case 13: {
+      // sizes changed by a callback during global placement: arg 0 = every movable cell one unit wider (legitimate),
+      // arg 1 = the first movable cell of positive area shrunk to zero width (must be refused, or leave the cell in no bin)
+      Circuit cc = *gCircuit;
+      std::vector<int> w = cc.cellWidth();
+      bool done = false;
+      for (int i = 0; i < cc.nbCells(); ++i) {
+        if (cc.cellIsFixed()[i] || w[i] <= 0 || cc.cellHeight()[i] <= 0) continue;
+        if (op.arg == 0) w[i] += 1;
+        else if (!done) { w[i] = 0; done = true; }
+      }
+      cc.setCellWidth(w);
+      l.updateCellDemand(cc);
+      break;
+    }
     case 0: l.refineX(); break;
     case 1: l.refineY(); break;
     case 2: l.coarsenX(); break;
@@ -182,6 +198,8 @@ static std::string canon(const DensityLegalizer &l) {
       for (int c : l.binCells(i, j)) k += std::to_string(c) + ",";
       k += ";";
     }
+  k += "|";
+  for (int c = 0; c < l.nbCells(); ++c) k += std::to_string(l.cellDemand(c)) + ",";
   k += "|";
   for (int c = 0; c < l.nbCells(); ++c) {
     float tx = l.cellTargetX(c), ty = l.cellTargetY(c);
@@ -310,6 +328,8 @@ static vf::Verdicts eval(const Spec &s, vf::Ctx &ctx) {
   std::vector<Op> menu;
   for (int k = 0; k <= 11; ++k) menu.push_back({k, 0});
   for (int a = 0; a < 3; ++a) menu.push_back({12, a});
+  for (int a = 0; a < 2; ++a) menu.push_back({13, a});
+  gCircuit = &c;
   struct St { DensityLegalizer l; int parent; Op via; int depth; };
   std::vector<St> states;
   std::unordered_map<std::string, int> seenStates;
@@ -339,6 +359,12 @@ static vf::Verdicts eval(const Spec &s, vf::Ctx &ctx) {
       DensityLegalizer q = states[cur].l;
       CallResult ar = guarded([&] { apply(q, op); });
       ctx.count("transitions");
+      if (ar.threw && op.kind == 13) {
+        // a refused size update is fine, provided it changed nothing
+        if (canon(q) != canon(states[cur].l) || !invariant(q, clipped).empty()) fail("refused-size-update-changed-the-state", "after " + hist(cur, &op));
+        ctx.count("size_updates_refused");
+        continue;
+      }
       if (ar.threw) { fail("operation-throws:" + std::string(opNames[op.kind]), ar.what + " after " + hist(cur, &op)); continue; }
       std::string why = invariant(q, clipped);
       if (!why.empty()) fail("state:" + why, "after " + hist(cur, &op));
@@ -373,7 +399,7 @@ int main(int argc, char **argv) {
       "and without a short fixed cell that changes the smallest cell height) x bin sizes {1,1.5,2.5,5} x side margins {0,0.5,0.9,2}: bins tile the area, every bin capacity equals the "
       "area of (clipped free rows ∩ bin) computed independently, every coarser level aggregates exactly; (b) breadth-first search on the real DensityLegalizer (4 circuits, one with a band of adjacent zero-capacity bins, one scaled by 10000 so that the demand of a coarse bin exceeds 2^31; 6x3..12x6 "
       "bins with an obstruction notch / ragged rows, 5-6 cells incl. zero-demand) over {refineX, refineY, coarsenX, coarsenY, refine, improve, run, improveXTransport, "
-      "improveYTransport, improveSquare, improveDiagonals, improveXY, 3 target updates (inside, coincident, outside)} x 8 (12) parameter variants (all cost models, reopt sizes 2 and 3), "
+      "improveYTransport, improveSquare, improveDiagonals, improveXY, 3 target updates (inside, coincident, outside), 2 size updates (every cell wider; a cell shrunk to zero area: refused without effect, or the cell must leave its bin)} x 8 (12) parameter variants (all cost models, reopt sizes 2 and 3), "
       "depth 4 (5); invariant in every state: capacity of the current view, each non-zero-demand cell in exactly one bin consistent with cellBinX/Y, zero-demand cells in none, "
       "spread/simple coordinates inside the bin";
   c.bounds = gThorough ? "depth 5, cap 40000 states per graph" : "depth 4, cap 12000 states per graph";
